@@ -85,6 +85,11 @@ pub const SPECIAL: &[&str] = &[
     "ma\u{df}?",
     "MEASure:\u{fb01}le?",
     "\u{17f}et",
+    // the same mnemonics declared in another letter case (the long forms are equal ignoring case)
+    "BB",
+    "TEST?",
+    "TEst",
+    "a:bb",
     // longer than the 12 characters SCPI recommends for a mnemonic
     "TemperatureCompensation:A",
     "CALibration:TemperatureCompensation?",
